@@ -121,6 +121,13 @@ func runSCTP(id int, c *sctpCase, mode string, dp *dict.Parser) sctpLine {
 			}
 			pend, pendRC, pendConn = m, rc, dc
 		} else {
+			if k == 2 {
+				// other code of the application pinned a writer stream for what it sends through Write (its own
+				// requests): answers still go to the stream of their request
+				if mw, ok := dc.(diam.MultistreamWriter); ok {
+					mw.SetWriterStream(uint(m.MessageStream()) + 2)
+				}
+			}
 			m.Answer(rc).WriteTo(dc)
 		}
 		got <- struct{}{}
@@ -395,6 +402,89 @@ func SCTPAnswer(a Args) error {
 							l.Ans.First = ansFirst{Code: int(m.AVPs[0].Code), Flags: int(m.AVPs[0].Flags), Sem: abs.Limbs32(be32(m.AVPs[0].Payload))}
 						}
 						l.Ans.Stream = int(o[nout].Stream)
+					}
+				}
+				out.Emit(l)
+			}
+		}
+		as.Close()
+	}
+	// concurrent answers: requests on two streams are answered by two goroutines at the same time; the first
+	// writer is held at the entry of the transport's write call until the second has completed its write
+	for _, stream := range []uint16{0, 1, 7, 15, 16, 40, 65535} {
+		as := sctpmem.New()
+		mux := diam.NewServeMux()
+		got := make(chan *diam.Message, 4)
+		var dconn diam.Conn
+		mux.HandleFunc("ALL", func(dc diam.Conn, m *diam.Message) {
+			dconn = dc
+			got <- m
+		})
+		conn := diam.NewSCTPConnVerif(as)
+		diam.NewConn(conn, "10.0.0.2:3868", mux, vp)
+		for _, h := range ids {
+			e := h ^ 0x55
+			nout := len(as.Out())
+			streams := []uint16{stream, stream + 5}
+			var reqs []*diam.Message
+			for k, st := range streams {
+				hd := diam.Header{Version: 1, MessageLength: 20, CommandFlags: 0xC0, CommandCode: abs.VCmd, ApplicationID: abs.VApp, HopByHopID: h + uint32(k), EndToEndID: e}
+				as.Feed(st, hd.Serialize())
+				select {
+				case m := <-got:
+					reqs = append(reqs, m)
+				case <-time.After(3 * time.Second):
+				}
+			}
+			if len(reqs) != 2 {
+				continue
+			}
+			firstIn, secondDone := make(chan struct{}), make(chan struct{})
+			base := -1
+			as.OnWriteEnter = func(k int) {
+				if base < 0 {
+					base = k
+				}
+				if k == base { // the first writer waits inside the call until the second is through
+					close(firstIn)
+					select {
+					case <-secondDone:
+					case <-time.After(2 * time.Second):
+					}
+				}
+			}
+			var wg sync.WaitGroup
+			wg.Add(2)
+			go func() {
+				defer wg.Done()
+				reqs[0].Answer(2001).WriteTo(dconn)
+			}()
+			go func() {
+				defer wg.Done()
+				select {
+				case <-firstIn:
+				case <-time.After(2 * time.Second):
+				}
+				reqs[1].Answer(2001).WriteTo(dconn)
+				close(secondDone)
+			}()
+			wg.Wait()
+			as.OnWriteEnter = nil
+			for k, st := range streams {
+				id++
+				hb := h + uint32(k)
+				l := ansLine{Ev: "answer", ID: id, Via: "sctp-concurrent", Req: ansHdr{Flags: 0xC0, Cmd: abs.B3(abs.VCmd), App: abs.B4(abs.VApp), HbH: abs.B4(hb), E2E: abs.B4(e)}, RC: 2001, Stream: int(st),
+					Ans: ansObs{Hdr: ansHdr{Cmd: []int{0, 0, 0}, App: []int{0, 0, 0, 0}, HbH: []int{0, 0, 0, 0}, E2E: []int{0, 0, 0, 0}}, First: ansFirst{Sem: []int{}}, Stream: -1}}
+				for _, rec := range as.Out()[nout:] {
+					msgs, _ := splitMsgs(rec.Data)
+					if len(msgs) == 1 && msgs[0].HbH == hb {
+						m := msgs[0]
+						l.Ans.Hdr = ansHdr{Flags: int(m.Flags), Cmd: abs.B3(m.Cmd), App: abs.B4(m.App), HbH: abs.B4(m.HbH), E2E: abs.B4(m.E2E)}
+						l.Ans.NAVPs = len(m.AVPs)
+						if len(m.AVPs) > 0 && len(m.AVPs[0].Payload) == 4 {
+							l.Ans.First = ansFirst{Code: int(m.AVPs[0].Code), Flags: int(m.AVPs[0].Flags), Sem: abs.Limbs32(be32(m.AVPs[0].Payload))}
+						}
+						l.Ans.Stream = int(rec.Stream)
 					}
 				}
 				out.Emit(l)
